@@ -29,12 +29,19 @@ type c15Op struct {
 	Node string `json:"node"` // c client, s service
 	Ix   []int  `json:"ix"`   // pool indices
 	Toks []int  `json:"toks"` // request tokens of a call
+	Ctx  string `json:"ctx"`  // call: "" live context, "cancel" already cancelled, "deadline" deadline passed
+	Rep  int    `json:"rep"`  // Use/Unuse: the argument list repeated this many times (0 = once)
+}
+
+type c15Round struct {
+	Setup    []c15Op   `json:"setup"`    // performed alone before the mutators start
+	Mutators [][]c15Op `json:"mutators"` // one script per goroutine, all started together
 }
 
 type c15Entry struct {
 	Kind string  `json:"kind"`
 	K    int     `json:"k"`    // which of the distinct functions / types (kinds fi fo tk pik pok)
-	Beh  string  `json:"beh"`  // P pass, S short-circuit ok, E short-circuit error, A alter, F error after next
+	Beh  string  `json:"beh"`  // P pass, S short-circuit ok, E short-circuit error, A alter, F error after next, K cancel ctx for next
 	Mids []c15Op `json:"mids"` // Use/Unuse performed while a call is inside the handler
 }
 
@@ -47,6 +54,15 @@ type c15Case struct {
 	MutS    []c15Op    `json:"mut_s"` // conc: script of the goroutine mutating the service
 	Callers int        `json:"callers"`
 	GapUs   int        `json:"gap_us"`
+	Rounds  []c15Round `json:"rounds"` // multi: several mutators at once on the same managers
+}
+
+type c15RoundObs struct {
+	Chains  string    `json:"chains"`  // installed chains seen by a call made after all mutators returned
+	Ballast int64     `json:"ballast"` // silent ballast handlers that call went through
+	Res     string    `json:"res"`
+	Trace   string    `json:"trace"`
+	During  []c15Call `json:"during,omitempty"` // distinct (trace, result) of calls made while the mutators ran
 }
 
 type c15Call struct {
@@ -65,6 +81,7 @@ type c15Obs struct {
 	Seqs     [][]int   `json:"seqs,omitempty"`     // per caller: indices into Distinct, in call order
 	Last     []int     `json:"last,omitempty"`     // per caller: index of the call made after all mutators finished
 	Panics   []string  `json:"panics,omitempty"`
+	Rounds   []c15RoundObs `json:"rounds,omitempty"`
 }
 
 // ---------------------------------------------------------------- handlers
@@ -73,6 +90,7 @@ type slot struct {
 	id   int
 	beh  byte
 	mids []c15Op
+	env  *env
 }
 
 type env struct {
@@ -80,13 +98,13 @@ type env struct {
 	service *core.Service
 	pool    []interface{}
 	probe   int32
+	seq      bool // one operation at a time: wait for abandoned service work after every call
 }
 
-var cur *env
-
 type callTrace struct {
-	mu sync.Mutex
-	ev []string
+	mu      sync.Mutex
+	ev      []string
+	ballast int64
 }
 
 func (t *callTrace) add(s string) {
@@ -124,6 +142,20 @@ type res struct {
 	other string
 }
 
+// the request as an event shows it: the state of the context the handler was given (9001
+// cancelled, 9002 deadline exceeded) in front of the request tokens
+func fmtReq(ctx context.Context, t []int) string {
+	switch ctx.Err() {
+	case nil:
+		return fmtToks(t)
+	case context.Canceled:
+		return fmtToks(append([]int{9001}, t...))
+	case context.DeadlineExceeded:
+		return fmtToks(append([]int{9002}, t...))
+	}
+	return "?ctx:" + ctx.Err().Error() + fmtToks(t)
+}
+
 func fmtToks(t []int) string {
 	s := make([]string, len(t))
 	for i, v := range t {
@@ -145,6 +177,12 @@ func (r res) String() string {
 
 func errRes(err error) res {
 	msg := err.Error()
+	switch msg {
+	case context.Canceled.Error():
+		return res{e: 9001}
+	case context.DeadlineExceeded.Error():
+		return res{e: 9002}
+	}
 	if strings.HasPrefix(msg, "e") {
 		if n, e := strconv.Atoi(msg[1:]); e == nil {
 			return res{e: n}
@@ -258,7 +296,7 @@ func projIO(b []byte, err error) res {
 }
 
 func (sl *slot) current() (byte, []c15Op) {
-	if atomic.LoadInt32(&cur.probe) != 0 {
+	if atomic.LoadInt32(&sl.env.probe) != 0 {
 		return 'P', nil
 	}
 	return sl.beh, sl.mids
@@ -271,13 +309,19 @@ func runInvoke(sl *slot, ctx context.Context, name string, args []interface{}, n
 	if !okReq {
 		tr.add("+" + lab + "?" + fmt.Sprint(args))
 	} else {
-		tr.add("+" + lab + fmtToks(req))
+		tr.add("+" + lab + fmtReq(ctx, req))
 	}
 	beh, mids := sl.current()
 	for _, m := range mids {
-		cur.apply(m)
+		sl.env.apply(m)
 	}
 	switch beh {
+	case 'K':
+		cctx, cancel := context.WithCancel(ctx)
+		cancel()
+		r, err := next(cctx, name, args)
+		tr.add("-" + lab + "=" + projInvoke(r, err).String())
+		return r, err
 	case 'S':
 		x := res{ok: true, toks: []int{sl.id + 200}}
 		tr.add("-" + lab + "=" + x.String())
@@ -316,13 +360,19 @@ func runIO(sl *slot, ctx context.Context, request []byte, next core.NextIOHandle
 	if !okReq {
 		tr.add("+" + lab + "?" + string(request))
 	} else {
-		tr.add("+" + lab + fmtToks(req))
+		tr.add("+" + lab + fmtReq(ctx, req))
 	}
 	beh, mids := sl.current()
 	for _, m := range mids {
-		cur.apply(m)
+		sl.env.apply(m)
 	}
 	switch beh {
+	case 'K':
+		cctx, cancel := context.WithCancel(ctx)
+		cancel()
+		r, err := next(cctx, request)
+		tr.add("-" + lab + "=" + projIO(r, err).String())
+		return r, err
 	case 'S':
 		x := res{ok: true, toks: []int{sl.id + 200}}
 		tr.add("-" + lab + "=" + x.String())
@@ -527,6 +577,16 @@ func (p *ioPlug3) Handler(ctx context.Context, request []byte, next core.NextIOH
 	return runIO(p.sl, ctx, request, next)
 }
 
+// ballast: cheap silent pass-through handlers (counted, not traced) that make chains long
+func ballastInvoke(ctx context.Context, name string, args []interface{}, next core.NextInvokeHandler) ([]interface{}, error) {
+	atomic.AddInt64(&traceOf(ctx).ballast, 1)
+	return next(ctx, name, args)
+}
+func ballastIO(ctx context.Context, request []byte, next core.NextIOHandler) ([]byte, error) {
+	atomic.AddInt64(&traceOf(ctx).ballast, 1)
+	return next(ctx, request)
+}
+
 type notAPlugin struct{ x int }
 
 func mkValue(e c15Entry, sl *slot) (interface{}, error) {
@@ -562,6 +622,10 @@ func mkValue(e c15Entry, sl *slot) (interface{}, error) {
 		return &ioPlug{sl}, nil
 	case "pok":
 		return []interface{}{&ioPlug0{sl}, &ioPlug1{sl}, &ioPlug2{sl}, &ioPlug3{sl}}[k], nil
+	case "bi":
+		return core.InvokeHandler(ballastInvoke), nil
+	case "bo":
+		return core.IOHandler(ballastIO), nil
 	case "bad":
 		return &notAPlugin{k}, nil
 	}
@@ -571,7 +635,7 @@ func mkValue(e c15Entry, sl *slot) (interface{}, error) {
 // ---------------------------------------------------------------- running a case
 
 func echo(ctx context.Context, toks ...int) []int {
-	traceOf(ctx).add("*" + fmtToks(toks))
+	traceOf(ctx).add("*" + fmtReq(ctx, toks))
 	return append(append([]int{}, toks...), 99)
 }
 
@@ -586,9 +650,15 @@ func (e *env) apply(op c15Op) (status string) {
 			}
 		}
 	}()
-	vals := make([]core.PluginHandler, len(op.Ix))
-	for i, ix := range op.Ix {
-		vals[i] = e.pool[ix]
+	n := op.Rep
+	if n < 1 {
+		n = 1
+	}
+	vals := make([]core.PluginHandler, 0, n*len(op.Ix))
+	for ; n > 0; n-- {
+		for _, ix := range op.Ix {
+			vals = append(vals, e.pool[ix])
+		}
 	}
 	switch {
 	case op.Op == "U" && op.Node == "c":
@@ -603,8 +673,17 @@ func (e *env) apply(op c15Op) (status string) {
 	return "ok"
 }
 
-func (e *env) call(toks []int) (c c15Call) {
+func (e *env) call(toks []int, mode ...string) (c c15Call) {
+	c, _ = e.callB(toks, mode...)
+	return c
+}
+
+func (e *env) callB(toks []int, mode ...string) (c c15Call, ballast int64) {
 	tr := &callTrace{}
+	// the service side of a call the transport gave up on keeps running: let it finish before
+	// anything else happens, so that the next operation finds a quiet system
+	defer e.quiesce()
+	defer func() { ballast = atomic.LoadInt64(&tr.ballast) }()
 	defer func() {
 		if p := recover(); p != nil {
 			tr.mu.Lock()
@@ -613,15 +692,56 @@ func (e *env) call(toks []int) (c c15Call) {
 		}
 	}()
 	ctx := context.WithValue(context.Background(), traceKeyT{}, tr)
+	if len(mode) > 0 {
+		switch mode[0] {
+		case "cancel":
+			cctx, cancel := context.WithCancel(ctx)
+			cancel()
+			ctx = cctx
+		case "deadline":
+			dctx, cancel := context.WithDeadline(ctx, time.Now().Add(-time.Second))
+			defer cancel()
+			ctx = dctx
+		}
+	}
 	args := make([]interface{}, len(toks))
 	for i, t := range toks {
 		args[i] = t
 	}
 	r, err := e.client.InvokeContext(ctx, "echo", args)
 	x := projInvoke(r, err)
+	e.quiesce()
 	tr.mu.Lock()
 	defer tr.mu.Unlock()
-	return c15Call{Trace: strings.Join(tr.ev, ";"), Res: x.String()}
+	return c15Call{Trace: strings.Join(tr.ev, ";"), Res: x.String()}, 0
+}
+
+// Requests handed to the transport and requests the service side has finished.  The mock
+// transport abandons (but does not stop) the service goroutine when the caller's context is
+// done; in sequential cases the executor lets that work finish before the next operation.
+var sent, served int64
+
+// scheme "c15": the mock transport, counting the requests it is given
+type countingTransport struct{ inner mock.Transport }
+
+func (t *countingTransport) Transport(ctx context.Context, request []byte) ([]byte, error) {
+	atomic.AddInt64(&sent, 1)
+	return t.inner.Transport(ctx, request)
+}
+func (t *countingTransport) Abort() { t.inner.Abort() }
+
+type countingFactory struct{}
+
+func (countingFactory) Schemes() []string   { return []string{"c15"} }
+func (countingFactory) New() core.Transport { return &countingTransport{} }
+
+func (e *env) quiesce() {
+	if !e.seq {
+		return
+	}
+	for atomic.LoadInt64(&served) != atomic.LoadInt64(&sent) {
+		runtime.Gosched()
+	}
 }
 
 // the installed chains, read off a call in which every handler passes through
@@ -629,8 +749,16 @@ func (e *env) finalChains() string {
 	atomic.StoreInt32(&e.probe, 1)
 	defer atomic.StoreInt32(&e.probe, 0)
 	c := e.call(nil)
+	out := chainsOf(c.Trace)
+	if c.Res != "ok(99)" {
+		out += " probe-result=" + c.Res
+	}
+	return out
+}
+
+func chainsOf(trace string) string {
 	chains := map[string][]string{}
-	for _, ev := range strings.Split(c.Trace, ";") {
+	for _, ev := range strings.Split(trace, ";") {
 		if strings.HasPrefix(ev, "+") {
 			dot := strings.IndexByte(ev, '.')
 			par := strings.IndexByte(ev, '(')
@@ -645,9 +773,6 @@ func (e *env) finalChains() string {
 			out += " "
 		}
 		out += l + "=" + strings.Join(chains[l], ",")
-	}
-	if c.Res != "ok(99)" {
-		out += " probe-result=" + c.Res
 	}
 	return out
 }
@@ -671,9 +796,8 @@ func c15Run(line []byte, out *json.Encoder) error {
 	}
 	obs := c15Obs{ID: c.ID}
 	e := &env{}
-	cur = e
 	for i, pe := range c.Pool {
-		sl := &slot{id: i + 1, mids: pe.Mids, beh: 'P'}
+		sl := &slot{id: i + 1, mids: pe.Mids, beh: 'P', env: e}
 		if pe.Beh != "" {
 			sl.beh = pe.Beh[0]
 		}
@@ -694,13 +818,25 @@ func c15Run(line []byte, out *json.Encoder) error {
 		return err
 	}
 	defer server.Close()
-	e.client = core.NewClient("mock://" + addr)
+	// same handler the service bound, with a count of the requests it is working on
+	if mh, ok := e.service.GetHandler("mock").(*mock.Handler); ok {
+		mock.Agent.Register(addr, func(ctx context.Context, address string, request []byte) ([]byte, error) {
+			defer atomic.AddInt64(&served, 1)
+			return mh.Handler(ctx, address, request)
+		})
+	} else {
+		return errors.New("mock handler not found")
+	}
+	e.client = core.NewClient("c15://" + addr)
+	e.seq = c.Mode != "conc" && c.Mode != "multi"
 	if c.Mode == "conc" {
 		c15Conc(&c, e, &obs)
+	} else if c.Mode == "multi" {
+		c15Multi(&c, e, &obs)
 	} else {
 		for _, op := range c.Ops {
 			if op.Op == "C" {
-				r := e.call(op.Toks)
+				r := e.call(op.Toks, op.Ctx)
 				obs.Outs = append(obs.Outs, "call:"+r.Trace+"=>"+r.Res)
 			} else {
 				obs.Outs = append(obs.Outs, e.apply(op))
@@ -773,8 +909,62 @@ func c15Conc(c *c15Case, e *env, obs *c15Obs) {
 	cwg.Wait()
 }
 
+// Several mutators at once on the same managers, round after round; after each round, when
+// every mutator has returned, one call shows what is installed.
+func c15Multi(c *c15Case, e *env, obs *c15Obs) {
+	for _, rd := range c.Rounds {
+		for _, op := range rd.Setup {
+			if st := e.apply(op); st != "ok" {
+				obs.Panics = append(obs.Panics, st)
+			}
+		}
+		var wg sync.WaitGroup
+		var mu sync.Mutex
+		var stop int32
+		start := make(chan struct{})
+		for _, script := range rd.Mutators {
+			wg.Add(1)
+			go func(script []c15Op) {
+				defer wg.Done()
+				<-start
+				for _, op := range script {
+					if st := e.apply(op); st != "ok" {
+						mu.Lock()
+						obs.Panics = append(obs.Panics, st)
+						mu.Unlock()
+					}
+				}
+			}(script)
+		}
+		ro := c15RoundObs{}
+		seen := map[c15Call]bool{}
+		var cwg sync.WaitGroup
+		cwg.Add(1)
+		go func() {
+			defer cwg.Done()
+			<-start
+			for n := 0; n < 1000 && atomic.LoadInt32(&stop) == 0; n++ {
+				r := e.call([]int{7})
+				if !seen[r] {
+					seen[r] = true
+					ro.During = append(ro.During, r)
+				}
+			}
+		}()
+		close(start)
+		wg.Wait()
+		atomic.StoreInt32(&stop, 1)
+		cwg.Wait()
+		r, ballast := e.callB([]int{7})
+		ro.Trace, ro.Res, ro.Ballast = r.Trace, r.Res, ballast
+		ro.Chains = chainsOf(r.Trace)
+		obs.Rounds = append(obs.Rounds, ro)
+	}
+}
+
 func main() {
 	mock.RegisterHandler()
 	mock.RegisterTransport()
+	core.RegisterTransport("c15", countingFactory{})
 	hvlib.Main(c15Run)
 }
